@@ -14,13 +14,13 @@ import (
 // ---------- C15: network-policy sync converges and leaves foreign rules alone ----------
 
 type c15Case struct {
-	A, B       ClusterT
-	EventOrder []int `json:"event_order"` // permutation picks for the A->B events
-	Foreign    int   `json:"foreign"`
-	StaleSets  int   `json:"stale_sets"`
-	StalePlcy  int   `json:"stale_plcy"`   // stale, unreferenced GLX-PLCY chains
-	StalePodRef bool `json:"stale_pod_ref"` // a stale GLX-POD chain (pod long gone) still jumping to a stale GLX-PLCY chain
-	Events     bool  `json:"events"`        // deliver the A->B difference through the event handlers before the full sync
+	A, B        ClusterT
+	EventOrder  []int `json:"event_order"` // permutation picks for the A->B events
+	Foreign     int   `json:"foreign"`
+	StaleSets   int   `json:"stale_sets"`
+	StalePlcy   int   `json:"stale_plcy"`    // stale, unreferenced GLX-PLCY chains
+	StalePodRef bool  `json:"stale_pod_ref"` // a stale GLX-POD chain (pod long gone) still jumping to a stale GLX-PLCY chain
+	Events      bool  `json:"events"`        // deliver the A->B difference through the event handlers before the full sync
 }
 
 func mutateCluster(t *rapid.T, a ClusterT, o GenOpts, keepPolicies bool) ClusterT {
